@@ -51,6 +51,7 @@ type Contract struct {
 	Lemma    bool
 	Splits   []string
 	rawMods  []rawMod
+	Use      map[string]map[string]bool // callee → the callee's ensures clauses assumed at call sites (default: all)
 	Asserts  map[string][]*Clause // cut points: "before <callee>#<n>" → clauses checked, then assumed
 	Witness  map[string]map[string]SExpr // clause name → existential variable → witness term (tried at return sites)
 }
@@ -506,6 +507,27 @@ func (e *Engine) parseContracts() {
 				for _, f := range strings.Fields(rest) {
 					cur.Flags[f] = true
 				}
+			}
+		case "use":
+			// use <callee>: clause clause ...   (assume only these postconditions of the callee)
+			if cur == nil {
+				perr(l, "use outside a contract")
+				continue
+			}
+			i := strings.Index(rest, ":")
+			if i < 0 {
+				perr(l, "use <callee>: clause ...")
+				continue
+			}
+			if cur.Use == nil {
+				cur.Use = map[string]map[string]bool{}
+			}
+			cal := strings.TrimSpace(rest[:i])
+			if cur.Use[cal] == nil {
+				cur.Use[cal] = map[string]bool{}
+			}
+			for _, n := range strings.Fields(rest[i+1:]) {
+				cur.Use[cal][n] = true
 			}
 		case "assert":
 			// assert before <callee>#<n> <name>: <expr>
